@@ -41,3 +41,60 @@ package file
 //@ loop 0: decreases len(runOrder) - $i
 //@ loop 1: invariant 0 <= $i && $i <= len(taskToRun.GlobDependencies) && toHash == globCat(mapval(s.Globs), taskToRun.GlobDependencies, $i)
 //@ loop 1: decreases len(taskToRun.GlobDependencies) - $i
+
+// ---- C03: graph construction and run order ----
+
+// every task is stored under its own name (established by New)
+//@ pred TasksInv(s *SpokFile) := forall k string :: {s.Tasks[k]} dom(s.Tasks, k) ==> s.Tasks[k].Name == k
+
+// the graph g holds the requested tasks and is closed under declared task dependencies, with an
+// edge dependency -> dependent for each of them; every vertex is a defined task
+//@ pred GraphOK(s *SpokFile, g ref, req []string) :=
+//@        (forall k int :: {req[k]} 0 <= k && k < len(req) ==> dagV[g][req[k]])
+//@     && (forall id string :: {dagV[g][id]} dagV[g][id] ==> dom(s.Tasks, id) && dagItem[g][id] == s.Tasks[id])
+//@     && (forall id string, k int :: {dagV[g][id], s.Tasks[id].TaskDependencies[k]} dagV[g][id] && 0 <= k && k < len(s.Tasks[id].TaskDependencies) ==> dagV[g][s.Tasks[id].TaskDependencies[k]] && dagE[g][s.Tasks[id].TaskDependencies[k]][id])
+
+//@ func (*SpokFile).buildGraph
+//@ props C03
+//@ modifies dagV, dagE, dagItem, dagN, qpos
+//@ ensures [C03,closure] result1 == nil ==> result0 != nil && GraphOK(s, result0, requested)
+//@ at return AddVertex#0: ghost qpos = store(qpos, name, i)
+//@ at call append#1: ghost qpos = store(qpos, dep, len(queue))
+//@ loop 0: invariant 0 <= i && i <= len(queue) && len(requested) <= len(queue) && graph != nil
+//@ loop 0: invariant forall k int :: {queue[k]} {requested[k]} 0 <= k && k < len(requested) ==> queue[k] == requested[k]
+//@ loop 0: invariant forall q int :: {queue[q]} 0 <= q && q < i ==> dagV[graph][queue[q]]
+//@ loop 0: invariant forall id string :: {dagV[graph][id]} dagV[graph][id] ==> 0 <= qpos[id] && qpos[id] < len(queue) && queue[qpos[id]] == id && dom(s.Tasks, id) && dagItem[graph][id] == s.Tasks[id]
+//@ loop 0: invariant forall id string, k int :: {dagV[graph][id], s.Tasks[id].TaskDependencies[k]} dagV[graph][id] && qpos[id] < i && 0 <= k && k < len(s.Tasks[id].TaskDependencies) ==> dagV[graph][s.Tasks[id].TaskDependencies[k]] && dagE[graph][s.Tasks[id].TaskDependencies[k]][id]
+//@ loop 1: invariant 0 <= $i && $i <= len(requestedTask.TaskDependencies) && 0 <= i && i < len(queue) && len(requested) <= len(queue) && queue[i] == name
+//@ loop 1: invariant dagV[graph][name] && dom(s.Tasks, name) && requestedTask == s.Tasks[name]
+//@ loop 1: invariant forall k int :: {queue[k]} {requested[k]} 0 <= k && k < len(requested) ==> queue[k] == requested[k]
+//@ loop 1: invariant forall q int :: {queue[q]} 0 <= q && q < i ==> dagV[graph][queue[q]]
+//@ loop 1: invariant forall id string :: {dagV[graph][id]} dagV[graph][id] ==> 0 <= qpos[id] && qpos[id] < len(queue) && queue[qpos[id]] == id && dom(s.Tasks, id) && dagItem[graph][id] == s.Tasks[id]
+//@ loop 1: invariant forall id string, k int :: {dagV[graph][id], s.Tasks[id].TaskDependencies[k]} dagV[graph][id] && qpos[id] < i && 0 <= k && k < len(s.Tasks[id].TaskDependencies) ==> dagV[graph][s.Tasks[id].TaskDependencies[k]] && dagE[graph][s.Tasks[id].TaskDependencies[k]][id]
+//@ loop 1: invariant forall k int :: {requestedTask.TaskDependencies[k]} 0 <= k && k < $i ==> dagV[graph][requestedTask.TaskDependencies[k]] && dagE[graph][requestedTask.TaskDependencies[k]][name]
+
+// expandGlobs (C05 gives it its functional contract): here only its frame.
+//@ func (*SpokFile).expandGlobs
+//@ trusted functional contract and body: see C05
+//@ modifies mapOf(s.Globs)
+
+// Run: the statement of C03 over the order returned by dag.Sort. sortPos(lastGraph, name) is the
+// position of task `name` in the results; lastGraph / runPhase are ghost.
+//@ func (*SpokFile).Run
+//@ props C03 C09 C01 C02 C14
+//@ requires runner != nil && TasksInv(s) && I01(cp(s))
+//@ modifies fexists, fdata, last, ranCount, dagV, dagE, dagItem, dagN, qpos, lastGraph, runPhase, mapOf(s.Globs)
+//@ at entry: ghost runPhase = 0
+//@ at return buildGraph#0: ghost lastGraph = dag
+//@ at call run#0: ghost runPhase = 1
+//@ ensures [I01] I01(cp(s))
+//@ ensures [C03,errors-run-nothing] runPhase == 0 ==> ranCount == old(ranCount) && last == old(last)
+//@ ensures [C03,phase] result1 == nil ==> runPhase == 1
+//@ ensures [C03,requested] result1 == nil ==> forall k int :: {tasks[k]} 0 <= k && k < len(tasks) ==> 0 <= sortPos(lastGraph, tasks[k]) && sortPos(lastGraph, tasks[k]) < len(result0) && result0[sortPos(lastGraph, tasks[k])].Task == tasks[k]
+//@ ensures [C03,defined] result1 == nil ==> forall i int :: {result0[i]} 0 <= i && i < len(result0) ==> dom(s.Tasks, result0[i].Task)
+//@ ensures [C03,deps-first] result1 == nil ==> forall i int, k int :: {s.Tasks[result0[i].Task].TaskDependencies[k]} 0 <= i && i < len(result0) && 0 <= k && k < len(s.Tasks[result0[i].Task].TaskDependencies) ==> 0 <= sortPos(lastGraph, s.Tasks[result0[i].Task].TaskDependencies[k]) && sortPos(lastGraph, s.Tasks[result0[i].Task].TaskDependencies[k]) < i && result0[sortPos(lastGraph, s.Tasks[result0[i].Task].TaskDependencies[k])].Task == s.Tasks[result0[i].Task].TaskDependencies[k]
+//@ ensures [C03,once] result1 == nil ==> forall i int, j int :: {result0[i], result0[j]} 0 <= i && i < j && j < len(result0) ==> result0[i].Task != result0[j].Task
+//@ ensures [C09,notcached] result1 == nil ==> forall i int :: {result0[i]} 0 <= i && i < len(result0) && !result0[i].Skipped && !cmdsOk(result0[i].CommandResults, len(result0[i].CommandResults)) ==> diskGet(cp(s), result0[i].Task) == "" && last[result0[i].Task] == ""
+//@ ensures [C01,skip-means-uptodate] result1 == nil ==> forall i int :: {result0[i]} 0 <= i && i < len(result0) && result0[i].Skipped ==> last[result0[i].Task] != "" && last[result0[i].Task] == cur(mapval(s.Globs), s.Tasks[result0[i].Task])
+//@ loop 0: invariant 0 <= $i && $i <= len(runOrder)
+//@ loop 0: decreases len(runOrder) - $i
